@@ -543,3 +543,69 @@ _c05_base_event = contracts
 
 def contracts():
     return _c05_base_event() + [event_set_contract(m) for m in ("set-reset", "set", "reset")]
+
+
+# ---------------------------------------------------------------------------------------------
+# concrete probe: operations that are refused up front (unknown names, bad arguments) inside a batch cost
+# nothing that is queued
+# ---------------------------------------------------------------------------------------------
+REFUSED_IN_BATCH_REPLAY = '''import sys, os, itertools
+sys.path.insert(0, os.environ.get('PYVC_REPO', '/repo'))
+import param
+bad = []
+def make():
+    # a fresh class per case: class-level watchers live in the Parameter objects of the class
+    class P(param.Parameterized):
+        a = param.Number(0)
+        b = param.Number(0, bounds=(0, 10))
+        e = param.Event()
+    return P
+REFUSED = {
+    "trigger('unknown')": lambda o: o.param.trigger('unknown'),
+    "trigger('a', 'unknown')": lambda o: o.param.trigger('a', 'unknown'),
+    "update(unknown=1)": lambda o: o.param.update(unknown=1),
+    "update(b=99)": lambda o: o.param.update(b=99),
+    "update(5)": lambda o: o.param.update(5),
+    "o.b = 99": lambda o: setattr(o, 'b', 99),
+    "watch(cb, 'unknown')": lambda o: o.param.watch(lambda ev: None, 'unknown'),
+}
+for (label, op), ctx, level in itertools.product(REFUSED.items(), ('batch', 'update-context', 'nested'), ('instance', 'class')):
+    PP = type('PP', (make(),), {})
+    o = PP() if level == 'instance' else PP
+    calls = []
+    o.param.watch(lambda ev, calls=calls: calls.append((ev.name, ev.new)), ['a', 'e'])
+    def body():
+        o.a = 1
+        try:
+            op(o)
+        except Exception:
+            pass
+        else:
+            bad.append('%s (%s, %s level) was not refused' % (label, ctx, level))
+        if calls:
+            bad.append('%s inside an open %s (%s level): the queued change was announced before the batch ended: %r' % (label, ctx, level, calls))
+    if ctx == 'batch':
+        with param.parameterized.batch_call_watchers(o):
+            body()
+    elif ctx == 'update-context':
+        with o.param.update(e=False):
+            with param.parameterized.batch_call_watchers(o):
+                body()
+    else:
+        with param.parameterized.batch_call_watchers(o):
+            with param.parameterized.batch_call_watchers(o):
+                body()
+    got = [c for c in calls if c[0] == 'a']
+    if got != [('a', 1)]:
+        bad.append('%s refused inside an open %s (%s level): the change a = 1 made before it reached its watcher %d times (%r)'
+                   % (label, ctx, level, len(got), calls))
+    del calls[:]
+    o.a = 2
+    if calls != [('a', 2)]:
+        bad.append('%s refused inside an open %s (%s level): afterwards a = 2 gave the watcher %r' % (label, ctx, level, calls))
+if bad:
+    print('REPRODUCED: ' + bad[0]); sys.exit(1)
+print('NOT-REPRODUCED'); sys.exit(0)
+'''
+
+PROBES = [("an operation refused up front inside a batch costs nothing that is queued", REFUSED_IN_BATCH_REPLAY)]
